@@ -25,6 +25,7 @@ V14 cross-reference: the optimiser's rewrites and the sweep keep the function (C
 V15 cross-reference: range patterns compare with both bounds, compound patterns test each field's own bits (C08 M3 / M4)
 V16 cross-reference: accepted matches are exhaustive (struct pattern fields aligned by name, number patterns inside the matched type: C17 T14 / T15)
 V17 cross-reference: first matching arm wins (C08 M1)
+V18 cross-reference: operators are lowered with their own circuits, rewrites are exact (C03 A3)
 """
 from .. import mir
 from ..core import AnchorMissing, Finding, RuleResult
@@ -1291,5 +1292,18 @@ def rule_v17(ctx):
     return res
 
 
+def rule_v18(ctx):
+    """Cross-reference: every operator arm lowers with its own arithmetic circuit on every path; a rewrite into another expression
+    (`x / 2^k` as a shift, `x - c` as `x + (-c)`) must be exact for every operand value and sign (C03-A3)."""
+    from . import C03
+    res = RuleResult("V18", "operators are lowered with their own circuits, rewrites are exact (cross-reference to C03-A3)")
+    sub = C03.rule_a3(ctx)
+    for x in sub.findings:
+        res.bad(Finding("V18", x.fn, x.site, x.message, x.span))
+    if not sub.findings:
+        res.ok({"verdict": "C03-A3 holds"})
+    return res
+
+
 def run(ctx):
-    return ctx.run_rules([rule_v13, rule_v12, rule_v11, rule_v1, rule_v2, rule_v3, rule_v4, rule_v5, rule_v6, rule_v7, rule_v8, rule_v9, rule_v10, rule_v14, rule_v15, rule_v16, rule_v17])
+    return ctx.run_rules([rule_v13, rule_v12, rule_v11, rule_v1, rule_v2, rule_v3, rule_v4, rule_v5, rule_v6, rule_v7, rule_v8, rule_v9, rule_v10, rule_v14, rule_v15, rule_v16, rule_v17, rule_v18])
